@@ -371,6 +371,33 @@ def gen_themed(rng, theme):
         ops.append(("call", "validate", ("text", PFX + odd), ("slot", "S0"), None, {}, None))
         if rng.random() < 0.5:
             ops.append(("call", "validate", ("text", PFX + odd), ("text", PFX + SHAPES["owlrl_types"]), None, {"inference": rng.choice(["none", inf_])}, None))
+    elif theme == "function_params":
+        # the SAME function IRI declared with other parameter lists (orders swapped, no orders, a third optional-looking name) in
+        # successive calls: each call binds the arguments by the declaration it was given
+        def fp_shapes(decl):
+            return ('ex:prefixes a owl:Ontology ; sh:declare [ sh:prefix "ex" ; sh:namespace "http://ex.org/"^^xsd:anyURI ] .\n'
+                    'ex:diff a sh:SPARQLFunction ; sh:parameter %s ; sh:returnType xsd:integer ; sh:prefixes ex:prefixes ; sh:select "SELECT (%s AS ?result) WHERE { }" .\n'
+                    'ex:FP a sh:NodeShape ; sh:targetClass ex:P ; sh:sparql [ sh:prefixes ex:prefixes ; sh:message "diff of {?value}" ;\n'
+                    '  sh:select "SELECT $this ?value WHERE { $this ex:n ?value . FILTER (ex:diff(?value, 4) > 0) }" ] ;\n'
+                    '  sh:rule [ a sh:SPARQLRule ; sh:prefixes ex:prefixes ; sh:construct "CONSTRUCT { $this ex:d ?d } WHERE { $this ex:n ?v . BIND (ex:diff(?v, 4) AS ?d) }" ] .\n' % decl)
+        decls = [('[ sh:path ex:op1 ; sh:order 1 ] , [ sh:path ex:op2 ; sh:order 2 ]', "$op1 - $op2"),
+                 ('[ sh:path ex:op1 ; sh:order 2 ] , [ sh:path ex:op2 ; sh:order 1 ]', "$op1 - $op2"),
+                 ('[ sh:path ex:op1 ] , [ sh:path ex:op2 ]', "$op1 - $op2"),
+                 ('[ sh:path ex:zz ] , [ sh:path ex:aa ]', "$zz - $aa"),
+                 ('[ sh:path ex:zz ; sh:order 0 ] , [ sh:path ex:aa ; sh:order 5 ]', "$zz - $aa")]
+        picks = rng.sample(decls, 3)
+        alloced_ = False
+        for k_, dcl in enumerate(picks + picks[:1]):
+            how = rng.random()
+            if how < 0.5:
+                ops.append(("realloc" if alloced_ else "alloc", "S0", "shapes", fp_shapes(dcl)))
+                alloced_ = True
+                sref = ("slot", "S0")
+            else:
+                sref = ("text", PFX + fp_shapes(dcl))
+            api_ = rng.choice(["validate", "validate", "rules"])
+            ops.append(("call", api_, ("slot", "D0"), sref, None, {"advanced": True} if api_ == "validate" else {}, None))
+            ops += maybe_fail() if rng.random() < 0.2 else []
     elif theme == "function_kinds":
         # a call whose shapes graph declares functions of the generic kind, then (maybe after a failure) a call that USES SPARQL functions
         ops.append(("alloc", "S0", "shapes", SHAPES["function_kinds"]))
@@ -427,7 +454,7 @@ def gen_themed(rng, theme):
     return ops
 
 
-THEMES = ["stale_data", "stale_shapes", "stale_validator", "reuse", "globals", "modes", "imports", "pattern", "baked", "function_kinds", "datatype_table", "mixed", "mixed"]
+THEMES = ["stale_data", "stale_shapes", "stale_validator", "reuse", "globals", "modes", "imports", "pattern", "baked", "function_kinds", "datatype_table", "function_params", "mixed", "mixed"]
 
 
 def gen_history(seed, index):
